@@ -2,9 +2,9 @@ CONSTANTS Procs = {p1, p2}
  MaxKills = 1
  Removes = TRUE
  Caught = {"eof", "trunc", "type"}
- GuardedRemove = FALSE
+ GuardedRemove = TRUE
  Merge = TRUE
- RemovesStale = TRUE
+ RemovesStale = FALSE
  ChecksFolder = TRUE
  ExistOk = TRUE
  InitKinds = {"missing", "empty", "partial", "valid", "stale", "junk", "nofolder"}
@@ -13,5 +13,4 @@ INVARIANT NoFatal
 INVARIANT NeverTrustDamaged
 INVARIANT NeverTrustStale
 INVARIANT MutualExclusion
-
 CHECK_DEADLOCK FALSE
